@@ -1,2 +1,4 @@
 import FlexiVerif.Model.Text
 import FlexiVerif.Model.Spec
+import FlexiVerif.Model.Flw
+import FlexiVerif.Model.Names
